@@ -164,6 +164,16 @@ def rule_idsrc(filter_names=None):
                             clean = False
                             o.check(False, pretty, "count-as-vertex",
                                     "a value derived from order()/size()/a position is passed as a vertex id", ev["span"])
+                # (c) a generator of AdjacencyMap is asked for "the digraph on 0..count": its keys are then 0..count, not the
+                # keys of self
+                if key in GEN_KEYS and ev["fn"] and ev["args"] and not key.endswith("::trivial"):
+                    ta = ev["fn"].get("targs", [])
+                    is_amap = bool(ta) and ta[0].get("path") == AMAP
+                    if is_amap and any(count_tainted(a, an) for a in ev["args"]):
+                        clean = False
+                        o.check(False, pretty, "count-as-vertex-range",
+                                "an AdjacencyMap is generated on the ids 0..order() of self: the vertex ids of self need not be 0..order",
+                                ev["span"])
                 # (d) positional storage sized by a count and indexed by a vertex id
                 if key in ("slice::get_unchecked", "slice::get_unchecked_mut", "core::ops::index::Index::index",
                            "core::ops::index::IndexMut::index_mut", "rawptr::add") and len(ev["args"]) == 2:
@@ -355,6 +365,23 @@ def rule_from_valid(crate, prop, tier):
                 o.check(len(ins) >= 1, pretty, "form-c-insert", "no arc is inserted")
             continue
         # form (b): literal, then validation of every arc
+        if srcarg["k"] == "adt" and srcarg["path"] in REPR and names == ["arcs"]:
+            # a row container built from another representation has exactly the source's order
+            from .core import mk_len, strip_ref
+            Lr = mk_len(strip_ref(fields["arcs"]), an)
+            unknown = Lr is None or Lr == ("len", strip_ref(fields["arcs"]))
+            okl = (not unknown) and _refers_arg1(Lr)
+            if not okl and unknown:
+                # the literal moves a local whose creation value fixes the length
+                v0 = fields["arcs"]
+                if v0[0] == "mem" and v0[3] is None:
+                    vals = [v for (var, ver), v in an.term_of.items() if var == v0[1] and v[0] == "call"]
+                    for v in vals:
+                        l2 = mk_len(v, an)
+                        if l2 is not None and l2 != ("len", v) and _refers_arg1(l2):
+                            okl = v0[1] in an.stable_hdr
+            o.check(okl, pretty, "order-preserved", "the rows of the result are not created with exactly the source's order "
+                    "(isolated last vertices can be lost or spurious ones added)", an.blocks[b0]["stmts"][i0]["span"])
         loops = arcs_loops_of(an, fx)
         rowloops = None
         if len(loops) != 1:
@@ -822,6 +849,69 @@ def rule_one_per_pair(crate, prop, tier):
                         # modulus is the loop variable u (range 1..order) / closure parameter
             o.check(ok, pretty, "parent-is-rem-u", "the parent of u is not drawn as `x % u`")
     return o.report(floors={"seeded tournament / tree generators": (o.instances, 8)})
+
+
+# ---------------------------------------------------------------------------
+def rule_unit_interval(crate, prop, tier):
+    """C15: Xoshiro256StarStar::next_f64 lies in [0, 1): decided for the two usual constructions
+    (a) f64::from_bits(0x3FF << 52 | (x & (2^52 - 1))) - 1.0 and (b) (x & M) as f64 / C (or (x >> k) as f64 / C)
+    by integer interval arithmetic on the constants"""
+    o = Obl("UNIT-INTERVAL")
+    ps = [p for p in crate.fn_paths() if p.endswith("::next_f64") and "xoshiro" in p]
+    for p in ps:
+        o.instances += 1
+        an = crate.an(p)
+        who = crate.prog.pretty[p]
+        rets = [ev for ev in an.events if ev["k"] == "return"]
+        r = rets[0]["val"] if len(rets) == 1 else None
+        verdict = None
+
+        def cint(t):
+            if t[0] == "const" and isinstance(t[2], int):
+                return t[2]
+            if t[0] == "bin" and t[1] == "Shl" and cint(t[2]) is not None and cint(t[3]) is not None:
+                return cint(t[2]) << cint(t[3])
+            if t[0] == "bin" and t[1] == "Sub" and cint(t[2]) is not None and cint(t[3]) is not None:
+                return cint(t[2]) - cint(t[3])
+            if t[0] == "cast" and t[1] in ("IntToFloat", "IntToInt"):
+                return cint(t[2])
+            return None
+
+        def upper(t):
+            """largest integer value of an unsigned expression over one unknown u64"""
+            v = cint(t)
+            if v is not None:
+                return v
+            if t[0] == "bin" and t[1] == "BitAnd":
+                us = [cint(x) for x in (t[2], t[3]) if cint(x) is not None]
+                return min(us) if us else None
+            if t[0] == "bin" and t[1] == "Shr" and cint(t[3]) is not None:
+                return (1 << (64 - cint(t[3]))) - 1
+            if t[0] == "cast" and t[1] in ("IntToFloat", "IntToInt"):
+                return upper(t[2])
+            return None
+        if r is not None and r[0] == "bin" and r[1] == "Sub" and r[3][0] == "constx" and r[3][2].startswith("1") \
+                and r[2][0] == "call" and r[2][1] == "float::from_bits":
+            bits = r[2][3][0]
+            if bits[0] == "bin" and bits[1] == "BitOr":
+                parts = [bits[2], bits[3]]
+                expo = [cint(x) for x in parts if cint(x) is not None]
+                mant = [x for x in parts if cint(x) is None]
+                if len(expo) == 1 and len(mant) == 1:
+                    mu = upper(mant[0])
+                    verdict = expo[0] == 1023 << 52 and mu is not None and mu < (1 << 52)
+        elif r is not None and r[0] == "bin" and r[1] == "Div":
+            num, den = upper(r[2]), cint(r[3])
+            if num is not None and den is not None:
+                verdict = 0 < den and num < den and den <= (1 << 53)
+        elif r is not None and r[0] == "bin" and r[1] == "Mul":
+            verdict = None
+        if verdict is None:
+            o.undecide(who, "unit-interval", "next_f64 is not built in one of the two forms the rule evaluates")
+        else:
+            o.check(verdict, who, "unit-interval", "next_f64 can return a value outside [0, 1): `next_f64() < p` then misses an arc at p = 1 "
+                    "(or the mantissa mask / exponent constant is wrong)", crate.prog.fns[p]["span"])
+    return o.report(floors={"next_f64": (o.instances, 1)})
 
 
 # ---------------------------------------------------------------------------
